@@ -98,6 +98,23 @@ static void check_input(Reporter& rep, const GpInput& in, bool verbose, const st
       if (ct != 3) variant("swap_subject_clip", C, S, fr);
       // reversal of all paths
       variant("reverse_all", reversed(S), reversed(C), swapPN(fr));
+      // the convenience function BooleanOp (what Intersect/Union/Difference/Xor call) is one more representation of the same request:
+      // same result as the object, also with the clip moved far away (disjoint bounds) and with no clip at all, whatever the
+      // representation of the subject (a vertex given twice + closing vertex; all paths reversed)
+      if (only_variant.empty() || only_variant.rfind("free_function", 0) == 0) {
+        auto ff = [&](const Paths& S2, const Paths& C2, int fr2) { rep.add("lib_calls"); return canon_closed(vfc::from64(Clipper2Lib::BooleanOp((Clipper2Lib::ClipType)ct, (Clipper2Lib::FillRule)fr2, vfc::to64(S2), vfc::to64(C2)))); };
+        auto far = [](Paths pp) { for (auto& p : pp) for (auto& q : p) { q.x += 100000; q.y += 70000; } return pp; };
+        Paths Sd = S; Sd[0].insert(Sd[0].begin(), S[0][0]); Sd[0].push_back(S[0][0]);
+        struct V { const char* name; Paths s, c; } vs[3] = {{"free_function", S, C}, {"free_function_far_clip", S, far(C)}, {"free_function_no_clip", S, Paths()}};
+        for (auto& v : vs) {
+          cur_variant = v.name; bool ok; Paths obj = canon_closed(exec(rep, ct, fr, v.s, v.c, ok));
+          Paths f0 = ff(v.s, v.c, fr), f1 = ff(Sd, v.c, fr), f2 = ff(reversed(v.s), reversed(v.c), swapPN(fr));
+          rep.add("cases", 3); rep.add("compared", 3); rep.add("exact_variants", 3); if (!obj.empty()) rep.add("nontrivial", 3);
+          if (f0 != obj) rep.violation("C13", key(in, ct, fr, v.name), "exact_free_function", "BooleanOp gives " + pstr(f0) + " the Clipper64 object " + pstr(obj));
+          else if (f1 != obj) rep.violation("C13", key(in, ct, fr, v.name), "exact_free_function", "BooleanOp with a repeated and a closing subject vertex gives " + pstr(f1) + " without them " + pstr(obj));
+          else if (f2 != obj) rep.violation("C13", key(in, ct, fr, v.name), "exact_free_function", "BooleanOp with all paths reversed gives " + pstr(f2) + " forward " + pstr(obj));
+        }
+      }
     }
     if (!only_variant.empty() && only_variant.rfind("alg_", 0) != 0) continue;
     // ---------------- algebraic part (region equality outside the tolerance band)
